@@ -7,6 +7,7 @@ import SnesVerif.Gen.Color
 import SnesVerif.Map.Spec
 import SnesVerif.Bus.Model
 import SnesVerif.Rom.BusIO
+import SnesVerif.Rom.Header
 
 def hexNat? (s : String) : Option Nat :=
   if s.isEmpty then none else
@@ -172,9 +173,67 @@ def run (size seed : Nat) (ops : List String) : String :=
   ";".intercalate outs.reverse
 end RomDrv
 
+/-! ### header -/
+namespace HdrDrv
+open HeaderModel Gen
+
+def hexBytes? (s : String) : Option (List UInt8) :=
+  if s == "-" then some [] else
+  let cs := s.toList
+  if cs.length % 2 ≠ 0 then none else
+  let rec go : List Char → Option (List UInt8)
+    | a :: b :: rest =>
+      match hexNat? (String.ofList [a, b]), go rest with
+      | some v, some r => some (UInt8.ofNat v :: r)
+      | _, _ => none
+    | _ => some []
+  go cs
+
+def bytesHex (bs : List UInt8) : String := String.join (bs.map hex2)
+
+def showVals : List Leaf → List Val → List String
+  | l :: ls, v :: vs =>
+    (match v with
+     | .num n => s!"{l.path}={toHex n}"
+     | .arr bs => s!"{l.path}=[{bytesHex bs}]") :: showVals ls vs
+  | _, _ => []
+
+def showHeader (h : Header) : String :=
+  s!"v={h.version} " ++ " ".intercalate (showVals headerLeaves h.vals)
+
+def run (ws : List String) : String :=
+  match ws with
+  | ["parse", hx] =>
+    match hexBytes? hx with
+    | some bs => match parse bs with | some h => showHeader h | none => "err"
+    | none => "bad-op"
+  | ["ser", hx] =>
+    match hexBytes? hx with
+    | some bs => match parse bs with | some h => bytesHex (serialise h) | none => "err"
+    | none => "bad-op"
+  | ["romw", sz, sd, ha, hb] =>
+    -- image of `sz` bytes (seeded background) carrying header A; the header parsed from B is written into it
+    match hexNat? sz, hexNat? sd, hexBytes? ha, hexBytes? hb with
+    | some sz, some sd, some a, some b =>
+      if sz < romMinSize then "too-small" else
+      let bg := (List.range sz).map (fun i => hash8 sd.toUInt64 i.toUInt32)
+      let img := splice bg romHeaderOffset a
+      match romReadHeader img, parse b with
+      | some h0, some hB =>
+        let img' := romWriteHeader img hB
+        let same := img' == img
+        let outside := (img'.take romHeaderOffset == img.take romHeaderOffset) &&
+                       (img'.drop (romHeaderOffset + 80) == img.drop (romHeaderOffset + 80)) && img'.length == img.length
+        s!"v0={h0.version} same={b01 same} outside={b01 outside} hdr={bytesHex ((img'.drop romHeaderOffset).take 80)}"
+      | _, _ => "err"
+    | _, _, _, _ => "bad-op"
+  | _ => "bad-op"
+end HdrDrv
+
 def handle (line : String) : String :=
   let line := line.trimAscii.toString
   if line.startsWith "bus " then BusDrv.run ((line.drop 4).toString.splitOn ";") else
+  if line.startsWith "hdr " then HdrDrv.run (((line.drop 4).toString.splitOn " ").filter (· ≠ "")) else
   if line.startsWith "rom " then
     match (line.drop 4).toString.splitOn ";" with
     | hd :: ops =>
